@@ -567,7 +567,7 @@ def run(info, out):
     if "<lsan-at-exit>" in glob:
         out.notes.append("LeakSanitizer at process exit (memory not attributed to a case): " + str(glob["<lsan-at-exit>"])[-300:])
     searched = 0
-    if (not info["proof_ok"]) and not out.violations:
+    if (not info["proof_ok"]) and not [v for v in out.violations if v[0] not in open_signatures("C20")]:
         # (D) a proof obligation broke and this run's histories show nothing: search 10x
         extra = [("x%d_%d" % (seed, n), gen_history(rng.fork("x%d" % n), env), 0) for n in range(10 * nseq)]
         rx = execute(env, extra, "search"); analyse(env, extra, rx, out, stats); searched = len(extra)
